@@ -10,23 +10,28 @@ Open Scope Z_scope.
    _parse_rfc *)
 
 (* gen_rule = parse_rule *)
-Lemma gres_g_of_res_ctor ev st kw : gres_res (g_of_res (ctor ev st kw)) = ctor ev st kw.
-Proof.
-  destruct (ctor ev st kw) as [r|e] eqn:E; [reflexivity|].
-  apply RstrThmErr.ctor_err in E as [[-> _]|[-> _]]; reflexivity.
-Qed.
+Lemma gres_g_of_res {A} (r : res A) : gres_res (g_of_res r) = r.
+Proof. destruct r as [a|[]]; reflexivity. Qed.
+(* the except clause around rrule(...) *)
+Lemma gres_catch_overflow {A} (r : res A) :
+  gres_res (gcatchs (g_of_res r) [([XOverflow], XValue)]) = catch r [EOverflow] EValue.
+Proof. destruct r as [a|[]]; reflexivity. Qed.
 
 Lemma gen_rule_spec ev ig line st : gres_res (gen_rule ev ig line st) = parse_rule ev ig line st.
 Proof.
   unfold gen_rule. rewrite gen_parse_rule_spec. pose proof (gen_parse_rfc_rrule_spec ig line) as S.
   destruct (gen_parse_rfc_rrule ig line) as [kw|e]; cbn [gbind].
-  - apply gres_g_of_res_ctor.
+  - apply gres_catch_overflow.
   - destruct e; reflexivity.
 Qed.
 
 (* ================================================================================================
    _parse_date, _parse_date_value *)
-Lemma gen_parse_date_spec ig x : gen_parse_date ig x = g_parse ig x.
+Lemma gen_parse_date_spec ig x : gres_res (gen_parse_date ig x) = parse_date_method ig x.
+Proof. unfold gen_parse_date, g_parse, parse_date_method, parse_date_res. destruct (parse_date ig x); reflexivity. Qed.
+
+Lemma gen_parse_date_cases ig x : gen_parse_date ig x =
+  match parse_date ig x with DOk d => GOk d | DBad => GExc XValue | DOv => GExc XValue | DUn => GExc XUnm end.
 Proof. unfold gen_parse_date, g_parse. destruct (parse_date ig x); reflexivity. Qed.
 
 Lemma startswith_after_last p : startswith s_TZIDeq p = true -> after_last_tzid p <> None.
@@ -60,8 +65,8 @@ Lemma gen_pdv_dates_spec o tz : forall l acc,
   gfoldM (gen_pdv_date o tz) l acc = gbind (g_of_res (pdv_dates (o_ignoretz o) tz l)) (fun t => GOk (acc ++ t)).
 Proof.
   induction l as [|x l IH]; intro acc; cbn [gfoldM pdv_dates]; [cbn; rewrite app_nil_r; reflexivity|].
-  unfold gen_pdv_date at 1. rewrite gen_parse_date_spec. unfold g_parse.
-  destruct (parse_date (o_ignoretz o) x) as [d| |]; cbn [gbind g_of_res]; try reflexivity. cbv zeta.
+  unfold gen_pdv_date at 1. rewrite gen_parse_date_cases.
+  destruct (parse_date (o_ignoretz o) x) as [d| | |]; cbn [gbind g_of_res]; try reflexivity. cbv zeta.
   destruct (tz =? 0) eqn:Z0; cbn [negb andb gbind].
   - rewrite IH. destruct (pdv_dates (o_ignoretz o) tz l) as [t|[]]; cbn [g_of_res gbind]; try reflexivity.
     rewrite <- app_assoc. reflexivity.
@@ -118,7 +123,7 @@ Qed.
 Lemma gmap_dates_spec ig : forall l,
   gres_res (gmapM (gen_parse_date ig) l) = pdv_dates ig 0 l.
 Proof.
-  induction l as [|x l IH]; [reflexivity|]. cbn [gmapM pdv_dates]. rewrite gen_parse_date_spec. unfold g_parse at 1.
+  induction l as [|x l IH]; [reflexivity|]. cbn [gmapM pdv_dates]. rewrite gen_parse_date_cases.
   destruct (parse_date ig x); cbn [gbind gres_res]; try reflexivity.
   cbn [Z.eqb negb andb]. rewrite <- IH. destruct (gmapM _ l) as [t|[]]; reflexivity.
 Qed.
@@ -135,7 +140,7 @@ Definition gen_line (o : opts) (names4 : list str)
   (st36 : list str * list str * list str * list dt * option dt) (line9 : str) :=
   let '(rrulevals10, rdatevals11, exrulevals12, exdatevals13, dtstart14) := st36 in (if negb (negb (isnil line9)) then GOk (rrulevals10, rdatevals11, exrulevals12, exdatevals13, dtstart14) else (match (if negb (has_char 58 line9) then Some ([82; 82; 85; 76; 69], line9) else split1 58 line9) with Some (name15, value16) => (let parms17 := (split_on 59 name15) in (if negb (negb (isnil parms17)) then GExc XValue else gbind (g_nth parms17 0) (fun t18 => (let name19 := t18 in (let parms20 := (tl parms17) in (if leqb name19 [82; 82; 85; 76; 69] then (if isnil parms20 then (let rrulevals21 := rrulevals10 ++ [value16] in GOk (rrulevals21, rdatevals11, exrulevals12, exdatevals13, dtstart14)) else GExc XValue) else (if leqb name19 [82; 68; 65; 84; 69] then (if forallb (fun parm22 => negb (negb (leqb parm22 [86; 65; 76; 85; 69; 61; 68; 65; 84; 69; 45; 84; 73; 77; 69]))) parms20 then (let rdatevals23 := rdatevals11 ++ [value16] in GOk (rrulevals10, rdatevals23, exrulevals12, exdatevals13, dtstart14)) else GExc XValue) else (if leqb name19 [69; 88; 82; 85; 76; 69] then (if isnil parms20 then (let exrulevals24 := exrulevals12 ++ [value16] in GOk (rrulevals10, rdatevals11, exrulevals24, exdatevals13, dtstart14)) else GExc XValue) else (if leqb name19 [69; 88; 68; 65; 84; 69] then gbind (gen_parse_date_value o names4 value16 parms20) (fun t25 => (let exdatevals26 := exdatevals13 ++ t25 in GOk (rrulevals10, rdatevals11, exrulevals12, exdatevals26, dtstart14))) else (if leqb name19 [68; 84; 83; 84; 65; 82; 84] then gbind (gen_parse_date_value o names4 value16 parms20) (fun t27 => (let dtvals28 := t27 in (if negb ((Z.of_nat (List.length dtvals28)) =? 1) then GExc XValue else gbind (g_nth dtvals28 0) (fun t29 => (let dtstart30 := (Some t29) in GOk (rrulevals10, rdatevals11, exrulevals12, exdatevals13, dtstart30)))))) else GExc XValue)))))))))) | None => GExc XValue end)).
 
-Definition exc_err (e : gexc) : err := match e with XUnm => EUnmodelled | XType => EType | _ => EValue end.
+Definition exc_err (e : gexc) : err := err_of_gexc e.
 
 Lemma forallb_negneg {A} (f : A -> bool) l : forallb (fun p => negb (negb (f p))) l = forallb f l.
 Proof. induction l as [|x l IH]; [reflexivity|]. cbn. rewrite negb_involutive, IH. reflexivity. Qed.
@@ -326,4 +331,11 @@ Proof.
     destruct (gfoldM (gen_line o names) lines ([], [], [], [], o_dtstart o)) as [[[[[a b] c] d] e]|e]; cbn [gbind].
     + rewrite L. apply gen_asm_spec.
     + rewrite L. destruct e; reflexivity.
+Qed.
+
+Theorem gen_error_classes ev o s e : forallb is_ascii s = true ->
+  gen_parse_rfc ev o s = GExc e -> e = XValue \/ e = XUnm.
+Proof.
+  intros Ha H. pose proof (gen_parse_rfc_spec ev o s Ha) as S. rewrite H in S. cbn [result_of_gres] in S.
+  symmetry in S. apply rrulestr_error_classes in S as [S|S]; destruct e; try discriminate; auto.
 Qed.
